@@ -77,13 +77,40 @@ def elems_fn(elem):
     return z3.Function("elems_" + T._mangle(elem), z3.SeqSort(elem.sort()), z3.ArraySort(elem.sort(), z3.BoolSort()))
 
 
+def _once(st, key, term):
+    """fact cache: has this fact already been assumed on this path?  The entry records where in the path condition it
+    sits, so that a fact first assumed inside ONE branch of an `if` is assumed again after the merge (there it only
+    holds under the branch's disjunct); the term is kept alive so that its id cannot be reused."""
+    if key in st.ghost:
+        return True
+    st.ghost[key] = (term, len(st.pc))
+    return False
+
+
+def seq_member_facts(st, L):
+    """every position of the sequence L holds a member of L (a theorem of sequences that the solvers do not find
+    by themselves): forall i. 0 <= i < len(L) => contains(L, unit(L[i]))"""
+    if _once(st, ("seqmem", L.get_id()), L):
+        return
+    i = z3.Int(fresh_name("mi"))
+    st.assume(z3.ForAll([i], z3.Implies(z3.And(0 <= i, i < z3.Length(L)), z3.Contains(L, z3.Unit(L[i])))))
+
+
+def seq_position_witness(st, L, esort):
+    """every member of L sits at some position (Skolem function `pos`): contains(L, unit(x)) => L[pos(x)] == x"""
+    if _once(st, ("seqpos", L.get_id()), L):
+        return
+    pos = z3.Function(fresh_name("seqpos"), esort, z3.IntSort())
+    x = z3.Const(fresh_name("px"), esort)
+    st.assume(z3.ForAll([x], z3.Implies(z3.Contains(L, z3.Unit(x)), z3.And(0 <= pos(x), pos(x) < z3.Length(L), L[pos(x)] == x))))
+
+
 def dict_wf(st, t, d):
     """Well-formedness of a dict value: `keys` enumerates exactly `dom`, without duplicates.
     (An invariant of every Python dict; the engine's own updates preserve it.)"""
     key = ("dictwf", d.get_id())
-    if key in st.ghost:
+    if _once(st, key, d):
         return
-    st.ghost[key] = d
     s = t.sort()
     ks, dom = s.keys(d), s.dom(d)
     i, j = z3.Int(fresh_name("wi")), z3.Int(fresh_name("wj"))
@@ -107,12 +134,16 @@ def set_iteration_order(st, v: Val) -> Val:
     return Val(T.List(t.elem), r)
 
 
-def seq_to_set(v: Val) -> Val:
-    """set(list): λx. contains(list, x)."""
+def seq_to_set(v: Val, ex=None, st=None) -> Val:
+    """set(list): λx. contains(list, x).  With `seq_positions=True` in the contract also: every position holds a
+    member, every member has a position."""
     t = v.ty
     x = fresh(t.elem, "sx")
     from .core import seq_contains_elem
 
+    if ex is not None and st is not None and getattr(ex.c, "seq_positions", False):
+        seq_member_facts(st, lift(v))
+        seq_position_witness(st, lift(v), t.elem.sort())
     return Val(T.Set(t.elem), z3.Lambda([x], seq_contains_elem(lift(v), x)))
 
 
@@ -174,7 +205,7 @@ def carrier_to_set(ex, st, info, node) -> Val:
         ps = pt.sort()
         return Val(T.Set(pt), z3.Lambda([pr], z3.And(z3.Select(s.dom(d), ps.accessor(0, 0)(pr)), z3.Select(s.map(d), ps.accessor(0, 0)(pr)) == ps.accessor(0, 1)(pr))))
     if info.seqval is not None:
-        return seq_to_set(info.seqval)
+        return seq_to_set(info.seqval, ex, st)
     i = z3.Int(fresh_name("si"))
     it = _item_val(info.item(i))
     y = fresh(it.ty, "sy")
@@ -245,7 +276,7 @@ def _set(ex, st, args, kwargs, node):
     if isinstance(t, T.Set):
         return v
     if isinstance(t, T.List):
-        return seq_to_set(v)
+        return seq_to_set(v, ex, st)
     if isinstance(t, T.Dict):
         return Val(T.Set(t.k), t.sort().dom(lift(v)))
     if t == T.STR:
@@ -325,13 +356,27 @@ def _dict(ex, st, args, kwargs, node):
 def _range(ex, st, args, kwargs, node):
     if all(is_const(a) for a in args):
         return Val.const(range(*[a.py for a in args]))
+    from .stmts import IterInfo
+
     if len(args) == 1:
         lo, hi = z3.IntVal(0), lift(args[0], T.INT)
     elif len(args) == 2:
         lo, hi = lift(args[0], T.INT), lift(args[1], T.INT)
+    elif len(args) == 3 and is_const(args[2]) and isinstance(args[2].py, int) and args[2].py != 0:
+        # constant step c: lo, lo+c, lo+2c, ... while before hi (in the direction of c)
+        lo, hi, c = lift(args[0], T.INT), lift(args[1], T.INT), args[2].py
+        if c > 0:
+            n = z3.If(hi > lo, (hi - lo + (c - 1)) / c, 0)
+        else:
+            n = z3.If(lo > hi, (lo - hi + (-c - 1)) / (-c), 0)
+        if c in (1, -1):
+            n = z3.If(hi > lo, hi - lo, 0) if c == 1 else z3.If(lo > hi, lo - hi, 0)
+        info = IterInfo("indexed", n=n, item=lambda i: Val(T.INT, lo + c * i))
+        if c == 1:
+            info.range = (lo, hi)
+        return Val(PYOBJ, None, ("iterinfo", info, None), True)
     else:
         raise Unsupported("range with symbolic step", node)
-    from .stmts import IterInfo
 
     if len(args) == 1:
         n = z3.If(hi > 0, hi, 0)
@@ -712,6 +757,19 @@ def del_item(ex, st, recv: Val, idx: Val, node) -> Val:
         st.assume(z3.ForAll([y], z3.Contains(ks, z3.Unit(y)) == z3.Select(ndom, y)))
         st.assume(z3.Length(ks) == z3.Length(s.keys(d)) - 1)
         return Val(t, s.mk(ndom, s.map(d), ks))
+    if recv.is_py and isinstance(recv.py, list) and is_const(idx) and isinstance(idx.py, int):
+        l = list(recv.py)
+        if not -len(l) <= idx.py < len(l):
+            ex.safety(st, z3.BoolVal(False), "IndexError", node)
+            raise Unsupported("constant index out of range", node)
+        del l[idx.py]
+        return _pyc(l)
+    if isinstance(t, T.List):
+        # del xs[i]: IndexError obligation, python index normalisation, the rest closes up
+        s = lift(recv)
+        n = z3.Length(s)
+        j = ex.norm_index(lift(idx, T.INT), n, st, node)
+        return Val(t, z3.Concat(z3.Extract(s, 0, j), z3.Extract(s, j + 1, n - j - 1)))
     raise Unsupported(f"del item on {t}", node)
 
 
@@ -809,7 +867,15 @@ def mutate(ex, st, recv: Val, name, args, kwargs, node):
         if name == "insert":
             if is_const(args[0]) and args[0].py == 0:
                 return Val(t, z3.Concat(z3.Unit(lift(args[1], t.elem)), s)), none
-            raise Unsupported("list.insert at a symbolic position", node)
+            # list.insert clamps the position: i < 0 counts from the end (not below 0), i > len appends
+            _need(args, 2, node, name)
+            i = lift(args[0], T.INT)
+            n = z3.Length(s)
+            if ex.entails(st, z3.And(i >= 0, i <= n)):
+                k = i
+            else:
+                k = z3.If(i < 0, z3.If(n + i < 0, 0, n + i), z3.If(i > n, n, i))
+            return Val(t, z3.Concat(z3.Extract(s, 0, k), z3.Unit(lift(args[1], t.elem)), z3.Extract(s, k, n - k))), none
         if name == "pop" and not args:
             n = z3.Length(s)
             ex.safety(st, n > 0, "IndexError", node)
